@@ -385,10 +385,11 @@ pub fn run_client(cid: usize, c: &Client, expects: &[Expect], addr: SocketAddr, 
             log
         });
         let t0 = sim::now_ns();
-        let ok = send_segmented(&mut s, &all, &c.cuts, c.gap_us);
+        let (ok, times) = send_segmented_timed(&mut s, &all, &c.cuts, c.gap_us);
         let t1 = sim::now_ns();
-        for (i, _) in bounds.iter().enumerate() {
-            sent[i] = Some((t0, t1));
+        for (i, (_, b)) in bounds.iter().enumerate() {
+            // (.0: the request cannot have been complete at the server before this instant)
+            sent[i] = Some((if *b > 0 { sent_not_before(&times, b - 1, t0) } else { t0 }, t1));
         }
         alive = ok;
         writer_done.store(true, std::sync::atomic::Ordering::SeqCst);
@@ -417,8 +418,8 @@ pub fn run_client(cid: usize, c: &Client, expects: &[Expect], addr: SocketAddr, 
             // cuts falling inside this request
             let cuts: Vec<usize> = c.cuts.iter().filter(|&&x| x > offset && x < offset + bytes.len()).map(|x| x - offset).collect();
             let t0 = sim::now_ns();
-            let ok = send_segmented(&mut s, &bytes, &cuts, c.gap_us);
-            sent[i] = Some((t0, sim::now_ns()));
+            let (ok, times) = send_segmented_timed(&mut s, &bytes, &cuts, c.gap_us);
+            sent[i] = Some((if bytes.is_empty() { t0 } else { sent_not_before(&times, bytes.len() - 1, t0) }, sim::now_ns()));
             offset += rendered[i].len();
             if is_trunc {
                 break;
@@ -881,7 +882,7 @@ impl Prop for C01 {
             "exactly one CRLF is tolerated after a non-empty Content-Length body (pinned by test_response)".into(),
             "lenient-or-reject kinds (bare LF line endings) may be answered 400 or accepted; only silence is a violation".into(),
             "a truncated final request followed by client close may be answered 400/408 or closed silently".into(),
-            "Date is checked at second granularity against the virtual wall clock between first request byte sent and first response byte received".into(),
+            "Date is checked at second granularity against the virtual wall clock: not before the segment carrying the request's last byte was written, not after the response's first byte was received".into(),
             "this phase is the threaded runtime; the tokio runtime is exercised by the twin phase C01T of the same check (no connection timeout exists there, so 408 is never expected)".into(),
         ]
     }
